@@ -20,7 +20,7 @@ pub fn spec() -> Spec {
     Spec {
         prop: "C12",
         level: "exploration",
-        rule: "Real server via start() on loopback, raw HTTP so the Authorization header is arbitrary. Enumerated completely: every registered method (real method table) x {call, notification, batch element first/middle/last mixed with public calls, batch of only notifications; for indexer-only methods also: string id, batch of one, last of a 31-element batch, two indexer-only calls in one batch, notification between public calls} x {no header, wrong user, wrong password, right user + empty password, lower-case scheme, bad base64, two wrong headers, doubled space, suffix-extended credentials, correct} x {auth on, off}. Deny-listed + not authorised => JSON-RPC error 401 for that element and no effect (state digest through authorised reads, incl. an executing read that would stall on an open block, equal before/after); everything else served (no 401). Completeness: each method is also invoked authorised with well-formed parameters on a scratch server and classified by effect (Obs, open block, pool); every method classified mutating must have been refused in the unauthorised sweep; afterwards a fixed authorised script must answer exactly as on a twin server that never saw the sweep. Non-trivial = matrix cell whose expectation is 'refused' or 'state must be unchanged'.",
+        rule: "Real server via start() on loopback, raw HTTP so the Authorization header is arbitrary. Enumerated completely: every registered method (real method table) x {call, notification, batch element first/middle/last mixed with public calls, batch of only notifications; for indexer-only methods also: string id, batch of one, last of a 31-element batch, two indexer-only calls in one batch, notification between public calls, an element that is not a JSON-RPC request in front of the call} x {no header, wrong user, wrong password, right user + empty password, lower-case scheme, bad base64, two wrong headers, doubled space, suffix-extended credentials, correct} x {auth on, off}. Deny-listed + not authorised => JSON-RPC error 401 for that element and no effect (state digest through authorised reads, incl. an executing read that would stall on an open block, equal before/after); everything else served (no 401). Completeness: each method is also invoked authorised with well-formed parameters on a scratch server and classified by effect (Obs, open block, pool); every method classified mutating must have been refused in the unauthorised sweep; afterwards a fixed authorised script must answer exactly as on a twin server that never saw the sweep. Non-trivial = matrix cell whose expectation is 'refused' or 'state must be unchanged'.",
         assumptions: vec!["a request carrying two Authorization headers of which one is correct is not judged (HTTP leaves the choice to the server)".into()],
         exhaustive: true,
         min_nontrivial: 2,
@@ -214,7 +214,7 @@ fn sweep(ctx: &WorkerCtx, rep: &mut WorkerReport, auth: bool, methods: &[String]
     let t = Duration::from_secs(60);
     let mut dg = digest(&srv.addr, &dir);
     // the last five forms are only sent for indexer-only methods (they add nothing for public ones)
-    let forms = ["call", "notification", "batch-first", "batch-middle", "batch-last", "batch-notifications", "call-string-id", "batch-single", "batch-long-last", "batch-two-denied", "batch-notification-mixed"];
+    let forms = ["call", "notification", "batch-first", "batch-middle", "batch-last", "batch-notifications", "call-string-id", "batch-single", "batch-long-last", "batch-two-denied", "batch-notification-mixed", "batch-junk-before"];
     'outer: for (vname, headers, authorised_hdr) in variants {
         let authorised = *authorised_hdr || !auth;
         for m in methods {
@@ -229,7 +229,7 @@ fn sweep(ctx: &WorkerCtx, rep: &mut WorkerReport, auth: bool, methods: &[String]
                 let notif = json!({"jsonrpc": "2.0", "method": m, "params": params});
                 let p1 = json!({"jsonrpc": "2.0", "id": 1, "method": "eth_chainId", "params": []});
                 let p2 = json!({"jsonrpc": "2.0", "id": 2, "method": "eth_blockNumber", "params": []});
-                let extended = ["call-string-id", "batch-single", "batch-long-last", "batch-two-denied", "batch-notification-mixed"].contains(&form);
+                let extended = ["call-string-id", "batch-single", "batch-long-last", "batch-two-denied", "batch-notification-mixed", "batch-junk-before"].contains(&form);
                 if extended && !deny.contains(m) {
                     continue;
                 }
@@ -248,6 +248,18 @@ fn sweep(ctx: &WorkerCtx, rep: &mut WorkerReport, auth: bool, methods: &[String]
                     }
                     "batch-two-denied" => json!([json!({"jsonrpc": "2.0", "id": 8, "method": "brc20_clearCaches", "params": []}), p1, target]),
                     "batch-notification-mixed" => json!([p1, notif, p2]),
+                    "batch-junk-before" => {
+                        // an element that is not a JSON-RPC request in front of the protected call
+                        let junk = match st.n % 6 {
+                            0 => json!(1),
+                            1 => json!(null),
+                            2 => json!({}),
+                            3 => json!("x"),
+                            4 => json!({"jsonrpc": "1.0", "id": 3, "method": "eth_chainId", "params": []}),
+                            _ => json!({"jsonrpc": "2.0", "id": 3, "params": []}),
+                        };
+                        json!([junk, target])
+                    }
                     _ => json!([notif, notif]),
                 };
                 let must_refuse = deny.contains(m) && !authorised;
